@@ -700,6 +700,7 @@ def run_vendor_cases(ctx, cases):
                     ctx.disagree(kcase, mt, it if r['exc'] is None else {'exc': r['exc']}, 'VendorBuilders.vbuild vs captured request tree', theorem='C07_vendor_conforms')
         j = oracle(case, r)
         if j: ctx.fail(kcase, j[0], sig=j[1], expected='instance of the vendor schema carrying the caller data / local rejection', actual={'exc': r['exc'], 'sent': [x[:400] for x in r['sent']]})
+    G.check_bindings(ctx, cases, results, [json.loads(key_of(c)) for c in cases])     # namespace bindings in scope at the caller's elements
 
 def yang_action_latent(ctx):
     """Classification of the `yang_action` candidate: the helper builds {base}action with an ATTRIBUTE xmlns=yang:1. Under the
@@ -728,4 +729,4 @@ def run(ctx):
 
 def judge(case):
     r = impl_run(case)
-    return r, oracle(case, r)
+    return r, (oracle(case, r) or c07().binding_verdict(case, r))
